@@ -42,6 +42,11 @@ def check(repo: Repo) -> Result:
     r7 = res.rule("C04-R7", "ndarray.dot override: result and out= carry the full product of the operands' units", floor=3)
     for key, ok, where, msg, exp, found in dot_method_units(repo):
         res.check(ok, key, where, msg, exp, found, rid=r7)
+    from rules import c05
+    from rules.common import share
+
+    r9 = res.rule("C04-R9", "whether the second operand is rescaled is decided by Unit.__eq__: scale and offset compared with a purely relative tolerance, dimensions exactly", floor=1)
+    share(res, r9, "C05", lambda t: t.__dict__.update(c05.check(repo).__dict__), ["C05-R2"], want=lambda k: k == "eq-shape")
     return res
 
 
@@ -354,6 +359,8 @@ def power_gate(repo, res, a: UfuncAnchors):
     res.check(n >= 2, "paths", fn.where(blk), "power gate has accepting paths", rid=r6)
 
 
+UO = "unyt/unit_object.py"
+
 MUTANTS = [
     Mutant("cbrt-as-sqrt", ARR, None, "cbrt: _cbrt_unit,", "cbrt: _sqrt_unit,", ("C04-R1",)),
     Mutant("matmul-preserve", ARR, None, "matmul: _multiply_units,", "matmul: _preserve_units,", ("C04-R1",)),
@@ -377,4 +384,5 @@ MUTANTS = [
     Mutant("twin-sqrt-rational", ARR, "_sqrt_unit", "unit**0.5", "unit ** (1 / 2)", (), benign=True),
     Mutant("rescale-entry-by-spelling", ARR, "unyt_array.__array_ufunc__", "if u0 is not u1 and u0 != u1:", "if u0 is not u1 and u0.expr != u1.expr:", ("C04-R2",)),
     Mutant("entry-without-identity-shortcut", ARR, "unyt_array.__array_ufunc__", "if u0 is not u1 and u0 != u1:", "if u0 != u1:", (), benign=True),
+    Mutant("unit-eq-absolute-tolerance", UO, "Unit.__eq__", "math.isclose(self.base_value, u.base_value)", "np.isclose(self.base_value, u.base_value)", ("C04-R9",)),
 ]
